@@ -1067,6 +1067,10 @@ public:
     size_t ncB = B.getNumberOfColumns();
     if (nrA != nrB) throw DimensionException("MatrixTools::hadamardMult(). nrows A != nrows B.", nrA, nrB);
     if (ncA != ncB) throw DimensionException("MatrixTools::hadamardMult(). ncols A != ncols B.", ncA, ncB);
+    if (iA.getNumberOfRows() != nrA) throw DimensionException("MatrixTools::hadamardMult(). nrows iA != nrows A.", iA.getNumberOfRows(), nrA);
+    if (iA.getNumberOfColumns() != ncA) throw DimensionException("MatrixTools::hadamardMult(). ncols iA != ncols A.", iA.getNumberOfColumns(), ncA);
+    if (iB.getNumberOfRows() != nrB) throw DimensionException("MatrixTools::hadamardMult(). nrows iB != nrows B.", iB.getNumberOfRows(), nrB);
+    if (iB.getNumberOfColumns() != ncB) throw DimensionException("MatrixTools::hadamardMult(). ncols iB != ncols B.", iB.getNumberOfColumns(), ncB);
     O.resize(nrA, ncA);
     iO.resize(nrA, ncA);
     for (size_t i = 0; i < nrA; i++)
